@@ -1,6 +1,6 @@
 (** Non-vacuity: concrete inputs (decoded from the integer encoding the harness uses) on which the
     hypotheses of the C15 theorems hold and the conclusions are visible by computation; and the
-    witness of the KeyError finding (dust transfer fee, F8). *)
+    witness of the KeyError (an asset whose lots keep an amount that no account holds, on explicitly given fractions). *)
 From Coq Require Import QArith.
 From RP2V Require Import Base.Prelude Base.Time Base.Dec Base.Assoc Model.Types Model.Generated Model.Txn Model.Pipeline
   Model.Computed Model.Grid Model.ReportInput Model.OpenPos Proofs.DecProofs Proofs.OpenPosProofs Proofs.OpenPosArith.
@@ -58,8 +58,10 @@ Proof.
   - vm_compute. repeat split; try reflexivity. discriminate.
 Qed.
 
-(** finding F8 -> KeyError: BUY 1 AAA @100 (H0); MOVE 1 -> 0.99999999999 to H1, fee valued at price 1e-8 (not taxed);
-    SELL 0.99999999999 (H1).  The lot keeps 1e-11 (cost 1e-9 > 0), every balance is 0. *)
+(** KeyError: BUY 1 AAA @100 (H0); MOVE 1 -> 0.99999999999 to H1, fee valued at price 1e-8; SELL 0.99999999999 (H1); the
+    fractions are part of the input and contain the sale only (what the matcher produced before the repair of finding F8, when
+    a transfer fee worth < 5e-14 was not a taxable event; with the repaired rule the matcher takes the fee from the lot and
+    this state cannot arise from these rows).  The lot keeps 1e-11 (cost 1e-9 > 0), every balance is 0. *)
 Definition keyerror_args : list Z :=
   [0; 365; 0; 2932896; 0; 1; 2; 69; 48; 2; 2; 72; 48; 2; 72; 49; 1; 1970; 0; 2; 3; 65; 65; 65; 1; 3; 1577836800000000; 0; 0; 0; 1; 10000000000000; 100000000000; 0; 0; 0; 0; 0; 0; 0; 0; 1; 8; 1579564800000000; 0; 0; 1; 11; 20000000000000; 99999999999; 0; 0; 0; 0; 0; 0; 0; 1; 13; 1578700800000000; 0; 0; 0; 0; 1; 1; 1000; 100000000000; 99999999999; 1; 8; 1; 3; 99999999999; 3; 66; 66; 66; 1; 3; 1577836800000000; 0; 0; 0; 1; 5000000000000; 200000000000; 0; 0; 0; 0; 0; 0; 0; 0; 0; 0; 0].
 
